@@ -309,6 +309,7 @@ Definition dp_entry_store_p (d : dpack) (k : N) : prog (layout * list N) :=
   ly <~ RdBlock (dp_base d + so_off so) (so_size so) (fun b => lift (parse_all p_layout b)) ;;
   if l_checked ly then Fail EFormat else              (* per-entry CRC: never written *)
   let dsize := l_count ly * N.of_nat (l_entry_size ly) in
+  if so_off so <? dsize + 4 then Fail EFormat else     (* the entry data fit before the tail, inside the pack *)
   data <~ RdBlock (dp_base d + so_off so - dsize - 4) dsize (fun b => Ret b) ;;
   Ret (ly, data).
 
@@ -316,8 +317,12 @@ Definition dp_entry_store_p (d : dpack) (k : N) : prog (layout * list N) :=
 Definition vstore_at_p (base : N) (so : sized_offset) : prog vstore :=
   t <~ RdBlock (base + so_off so) (so_size so) (fun b => lift (parse_all p_vs_tail b)) ;;
   match t with
-  | VTPlain sz => data <~ RdBlock (base + so_off so - sz - 4) sz (fun b => Ret b) ;; Ret (VSPlain data)
-  | VTIndexed offs sz => data <~ RdBlock (base + so_off so - sz - 4) sz (fun b => Ret b) ;; Ret (VSIndexed offs data)
+  | VTPlain sz =>
+      if so_off so <? sz + 4 then Fail EFormat else     (* the store data fit before the tail, inside the pack *)
+      data <~ RdBlock (base + so_off so - sz - 4) sz (fun b => Ret b) ;; Ret (VSPlain data)
+  | VTIndexed offs sz =>
+      if so_off so <? sz + 4 then Fail EFormat else
+      data <~ RdBlock (base + so_off so - sz - 4) sz (fun b => Ret b) ;; Ret (VSIndexed offs data)
   end.
 
 Definition dp_value_store_p (d : dpack) (k : N) : prog vstore :=
